@@ -5,6 +5,8 @@ package pipesim
 import (
 	"fmt"
 	"net/url"
+	"os"
+	"path/filepath"
 	"runtime/debug"
 	"sort"
 	"strings"
@@ -13,7 +15,9 @@ import (
 
 	"gopkg.in/yaml.v3"
 
+	"github.com/dadrus/heimdall/internal/truststore"
 	"github.com/dadrus/heimdall/internal/verifsim/simcore"
+	"github.com/dadrus/heimdall/internal/verifsim/simkeys"
 	"github.com/dadrus/heimdall/internal/verifsim/simnet"
 	"github.com/dadrus/heimdall/internal/verifsim/world"
 )
@@ -162,11 +166,13 @@ func robustSim(r *simcore.Run) {
 		r.Fail("infra", "build", "%v", err)
 		return
 	}
-	switch mode := s.Draw(3, "robust-mode"); mode {
-	case 0:
+	switch mode := s.Draw(7, "robust-mode"); mode {
+	case 0, 1:
 		robustRuleSets(r, w)
-	case 1:
+	case 2, 3:
 		robustResponses(r, w)
+	case 4:
+		robustTrustStore(r)
 	default:
 		robustRequests(r, w)
 	}
@@ -374,6 +380,51 @@ func robustRequests(r *simcore.Run, w *worlds) {
 		}
 	}
 	r.Distinct("nontrivial", r.Trace())
+}
+
+// robustTrustStore loads empty, truncated, garbage-tailed and wrong-type trust store files the way the configuration
+// loader does for the `trust_store` option of the jwt authenticator.
+func robustTrustStore(r *simcore.Run) {
+	s := r.Src
+	dir, err := os.MkdirTemp("", "verif-truststore-")
+	if err != nil {
+		r.Fail("infra", "tmp", "%v", err)
+		return
+	}
+	defer os.RemoveAll(dir)
+	_, caDER := simkeys.MintCA(simkeys.FixtureKey("ec256ca"), time.Now().Add(time.Hour))
+	valid := simkeys.PEMCert(caDER)
+	key, _ := os.ReadFile(simkeys.FixturePath("ec256"))
+	var content []byte
+	how := ""
+	switch s.Draw(8, "trust-store-content") {
+	case 0:
+		content, how = nil, "empty file"
+	case 1:
+		cut := len(valid) * s.Draw(1000, "cut-permille") / 1000
+		content, how = valid[:cut], "truncated certificate"
+	case 2:
+		content, how = append(append([]byte(nil), valid...), []byte("\n\n")...), "trailing blank lines"
+	case 3:
+		content, how = append(append([]byte(nil), valid...), []byte("# managed by ops\n")...), "trailing text"
+	case 4:
+		content, how = key, "private key only"
+	case 5:
+		content, how = append(append([]byte(nil), valid...), key...), "certificate followed by a key"
+	case 6:
+		content, how = []byte("not pem at all"), "garbage"
+	default:
+		content, how = append(append([]byte(nil), valid...), valid...), "two certificates"
+	}
+	path := filepath.Join(dir, "trust.pem")
+	os.WriteFile(path, content, 0o600)
+	r.Logf("trust store: %s", how)
+	r.Count("trust-store:"+how, 1)
+	guarded(r, "loading a trust store ("+how+")", func() {
+		ts, err := truststore.NewTrustStoreFromPEMFile(path, s.Draw(2, "strict") == 1)
+		r.Logf("  -> %d certificates, rejected=%v", len(ts), err != nil)
+	})
+	r.Distinct("nontrivial", how)
 }
 
 func trunc(s string) string {
